@@ -131,6 +131,7 @@ Lemma gp_cancel_order c s id : G s -> gp (cancel_order c s id).
 Proof.
   intros H. unfold cancel_order. destruct (get_order s id) as [o|]; [|gp_auto].
   destruct (negb (is_open o)); [gp_auto|].
+  apply gp_obind; [apply gp_lift; exact H|]. intros s0 u0 H0.
   apply gp_obind.
   - apply gp_order_closed. G_setter.
   - intros s1 o2 H1. unfold gp. cbn [sof]. apply G_push_update. exact H1.
